@@ -102,7 +102,7 @@ func LiveMPD(a *asset, mpdName string, cfg *ResponseConfig, drmCfg *drm.DrmConfi
 		}
 	}
 
-	addUTCTimings(mpd, cfg)
+	addUTCTimings(mpd, cfg, nowMS)
 
 	afterStop := false
 	endTimeMS := nowMS
@@ -734,7 +734,8 @@ func lastSegAvailTimeS(cfg *ResponseConfig, lsi lastSegInfo) float64 {
 }
 
 // addUTCTimings adds or keeps the UTCTiming elements to the MPD.
-func addUTCTimings(mpd *m.MPD, cfg *ResponseConfig) {
+// Only "keep" keeps the UTCTiming elements of the VoD MPD; otherwise they are replaced by the configured ones.
+func addUTCTimings(mpd *m.MPD, cfg *ResponseConfig, nowMS int) {
 	switch {
 	case len(cfg.UTCTimingMethods) == 0:
 		// default if none is set. Use HTTP with ms precision.
@@ -749,13 +750,15 @@ func addUTCTimings(mpd *m.MPD, cfg *ResponseConfig) {
 		// keep the UTCTiming elements in the MPD
 		return
 	default:
+		mpd.UTCTimings = nil
 		for _, utcTiming := range cfg.UTCTimingMethods {
 			var ut *m.DescriptorType
 			switch utcTiming {
 			case UtcTimingDirect:
 				ut = &m.DescriptorType{
 					SchemeIdUri: UtcTimingDirectScheme,
-					Value:       string(mpd.PublishTime),
+					// the value of the direct scheme is the wall-clock time itself
+					Value: string(m.ConvertToDateTimeMS(int64(nowMS))),
 				}
 			case UtcTimingNtp:
 				ut = &m.DescriptorType{
